@@ -55,6 +55,54 @@ Theorem C09_oracle_holds : forall c t0 ops, clean c ops -> let w := run src_shap
 Proof. exact (fun c t0 ops H => proj2 (proj2 (proj2 (T_oracles src_shape C09_source_shape c t0 ops H)))). Qed.
 Print Assumptions C09_oracle_holds.
 
+(* ---- names as strings: rendering, the recogniser, uniqueness (any base name, any suffix) ---- *)
+
+(* the recogniser of findRotatedFiles reads back exactly (date, index digits, gz) from a rendered name: 4/2/2-digit date fields, a non-empty run of index digits, for EVERY base name and suffix *)
+Theorem C09_parse_reads_back_render : forall c f, name_ok f -> parse_name c (render c f) = Some (fymd f, fdig f, fgz f).
+Proof. exact (parse_render). Qed.
+Print Assumptions C09_parse_reads_back_render.
+
+(* so rendering is injective on (date, index digits, gz) *)
+Theorem C09_render_injective : forall c a b, name_ok a -> name_ok b -> render c a = render c b -> fymd a = fymd b /\ fdig a = fdig b /\ fgz a = fgz b.
+Proof. exact (render_inj). Qed.
+Print Assumptions C09_render_injective.
+
+(* the index is rendered in decimal digits that read back to it *)
+Theorem C09_decimal_index : forall n, 0 <= n -> digits (dec n) /\ digits_val (dec n) = n /\ dec n <> [].
+Proof. exact (dec_spec). Qed.
+Print Assumptions C09_decimal_index.
+
+(* without a leading zero *)
+Theorem C09_decimal_index_no_leading_zero : forall n, 1 <= n -> hd 48%N (dec n) <> 48%N.
+Proof. exact (dec_no_leading_zero). Qed.
+Print Assumptions C09_decimal_index_no_leading_zero.
+
+(* distinct indices have distinct digit strings *)
+Theorem C09_decimal_index_injective : forall a b, 0 <= a -> 0 <= b -> dec a = dec b -> a = b.
+Proof. exact (dec_inj). Qed.
+Print Assumptions C09_decimal_index_injective.
+
+(* dates of the supported range render as yyyy-MM-dd with exactly 4/2/2 digits *)
+Theorem C09_civil_dates_in_range : forall a, -1 <= a <= MAXDAY -> let '(y, m, d) := civil a in 1969 <= y <= 9999 /\ 1 <= m <= 12 /\ 1 <= d <= 31.
+Proof. exact (civil_range). Qed.
+Print Assumptions C09_civil_dates_in_range.
+
+(* every name the sink ever generated is recognised by its own pattern with the date, index (>= 1, decimal, no leading zero) and gz flag it was rendered from *)
+Theorem C09_generated_names_round_trip : forall c t0 ops, clean c ops -> let w := run src_shape c t0 ops in Forall (fun f => parse_name c (render c f) = Some (fymd f, fdig f, fgz f) /\
+                  fdig f = dec (fidx f) /\ 1 <= fidx f /\ hd 48%N (fdig f) <> 48%N) (gone w ++ rot w).
+Proof. exact (fun c t0 ops H => T_names_roundtrip src_shape C09_source_shape c t0 ops H). Qed.
+Print Assumptions C09_generated_names_round_trip.
+
+(* no rotated file NAME is ever used twice, removed files included (the (date, index) version is C09_never_overwritten) *)
+Theorem C09_never_overwritten_names : forall c t0 ops, clean c ops -> let w := run src_shape c t0 ops in NoDup (map (render c) (gone w ++ rot w)).
+Proof. exact (fun c t0 ops H => T_never_overwritten_names src_shape C09_source_shape c t0 ops H). Qed.
+Print Assumptions C09_never_overwritten_names.
+
+(* all names in the directory are distinct - rotated files, the active file, foreign files: in particular a rename target never exists *)
+Theorem C09_directory_names_distinct : forall c t0 ops, clean c ops -> let w := run src_shape c t0 ops in NoDup (map (fun e => fst (fst e)) (listing c w)).
+Proof. exact (fun c t0 ops H => T_directory_names_distinct src_shape C09_source_shape c t0 ops H). Qed.
+Print Assumptions C09_directory_names_distinct.
+
 (* non-vacuity: two records on 2023-11-14, a jump of two days, a restart on a pre-dated active file *)
 Example C09_nonvacuous :
   let c := {| cL := 0; cN := 0; startup := false; daily := true; compress := false; cgran := G1ms; cbase := [97%N]; csuffix := []; ctz := 0 |} in
